@@ -639,7 +639,7 @@ class AutoSerialize:
                 # Recreate Python logger from saved metadata
                 logger_class_name = subgrp.attrs.get("class_name", "Logger")
 
-                if logger_class_name == "Logger":
+                if logger_class_name in ("Logger", "RootLogger"):
                     import logging
 
                     # Extract logger parameters
@@ -939,7 +939,7 @@ class AutoSerialize:
                             # Handle Python logger in containers
                             logger_class_name = subgroup.attrs.get("class_name", "Logger")
 
-                            if logger_class_name == "Logger":
+                            if logger_class_name in ("Logger", "RootLogger"):
                                 import logging
 
                                 logger_name = cast(
@@ -1059,7 +1059,7 @@ class AutoSerialize:
                         # Handle Python logger in containers
                         logger_class_name = subgroup.attrs.get("class_name", "Logger")
 
-                        if logger_class_name == "Logger":
+                        if logger_class_name in ("Logger", "RootLogger"):
                             import logging
 
                             logger_name = cast(str, subgroup.attrs.get("logger_name", "quantem"))
@@ -1149,7 +1149,7 @@ class AutoSerialize:
                     # Handle Python logger in containers
                     logger_class_name = subgroup.attrs.get("class_name", "Logger")
 
-                    if logger_class_name == "Logger":
+                    if logger_class_name in ("Logger", "RootLogger"):
                         import logging
 
                         logger_name = cast(str, subgroup.attrs.get("logger_name", "quantem"))
